@@ -376,6 +376,13 @@ def run(ctx):
                      % (_signature(bad), _fmt(bad.effects)), common.fn_line(prog, kv))
     r5.floor(1, "inert")
 
+    # ---------------- R6 the options the rules test are the values the front end set
+    r6 = chk.rule("C12.R6", "each option the processor consults is a plain stored value (getter = field, one pass-through setter, exported setter passes the value)",
+                  "with the option on / off each key's effect follows the documented rules — 'the option' is the value the front end set")
+    opts = sorted({a[1] for s in S for a, v in s.atoms if a[0] == "cfg"})
+    common.plain_options(r6, prog, opts)
+    r6.floor(5, "five options consulted by the key-value processor")
+
 
 def _signature(s):
     parts = []
